@@ -24,7 +24,7 @@ var (
 	maxI  = new(big.Int).Sub(new(big.Int).Lsh(big.NewInt(1), 63), big.NewInt(1))
 )
 
-func iv(lo, hi int64) ival   { return ival{big.NewInt(lo), big.NewInt(hi)} }
+func iv(lo, hi int64) ival     { return ival{big.NewInt(lo), big.NewInt(hi)} }
 func ivb(lo, hi *big.Int) ival { return ival{new(big.Int).Set(lo), new(big.Int).Set(hi)} }
 func (a ival) String() string  { return fmt.Sprintf("[%s,%s]", a.lo, a.hi) }
 func (a ival) join(b ival) ival {
@@ -350,12 +350,12 @@ func (a *ivAnalyzer) oblige(fn *ssa.Function, pos token.Pos, kind string, ok boo
 // analyze runs fn with the given parameter intervals and returns the joined result intervals.
 func (a *ivAnalyzer) analyze(fn *ssa.Function, params []ival) ([]ival, bool) {
 	if a.depth > 6 || len(fn.Blocks) == 0 {
-		a.failed = "call depth or missing body at " + fn.Name()
+		a.failed = "call depth or missing body at " + nm(fn)
 		return nil, false
 	}
 	for _, b := range fn.Blocks {
 		if inLoop(b) {
-			a.failed = "loop in " + fn.Name()
+			a.failed = "loop in " + nm(fn)
 			return nil, false
 		}
 	}
@@ -505,7 +505,7 @@ func (a *ivAnalyzer) analyze(fn *ssa.Function, params []ival) ([]ival, bool) {
 						continue
 					}
 					switch {
-					case a.summar[cal.Name()] && cal.Name() == "fmtInt":
+					case a.summar[nm(cal)] && nm(cal) == "fmtInt":
 						ln, ok1 := a.sliceLen(cc.Args[0], e)
 						v, ok2 := a.eval(cc.Args[1], e)
 						if !ok1 || !ok2 {
@@ -516,7 +516,7 @@ func (a *ivAnalyzer) analyze(fn *ssa.Function, params []ival) ([]ival, bool) {
 						nl := new(big.Int).Sub(ln.lo, big.NewInt(d))
 						a.oblige(fn, instrPos(x), "digits", nl.Sign() >= 0, "fmtInt writes up to %d digit(s) (value <= %s) into room for %s", d, v.hi, ln)
 						e[x] = ivb(nl, new(big.Int).Sub(ln.hi, big.NewInt(1)))
-					case a.summar[cal.Name()] && cal.Name() == "fmtFrac":
+					case a.summar[nm(cal)] && nm(cal) == "fmtFrac":
 						ln, ok1 := a.sliceLen(cc.Args[0], e)
 						v, ok2 := a.eval(cc.Args[1], e)
 						pr, ok3 := a.eval(cc.Args[2], e)
@@ -552,7 +552,7 @@ func (a *ivAnalyzer) analyze(fn *ssa.Function, params []ival) ([]ival, bool) {
 						}
 						res, ok := a.analyze(cal, ps)
 						if !ok {
-							a.oblige(fn, instrPos(x), "call", false, "helper %s could not be analysed (%s)", cal.Name(), a.failed)
+							a.oblige(fn, instrPos(x), "call", false, "helper %s could not be analysed (%s)", nm(cal), a.failed)
 							continue
 						}
 						if len(res) == 1 {
